@@ -214,9 +214,10 @@ def main():
         for msg in meta_fail:
             path = replaylib.write_harness_replay(pid, {"harness": "meta", "what": msg, "input": None}, SRC)
             lines.append(f"VIOLATION property={pid} replay={path} no-failing-input-found"); code = 1
+        printed = set()
         for k in known_open:
             kid = k.get("id") or k.get("what_fails")
-            if kid in known_hits: lines.append(f"KNOWN-FINDING: property={pid} {k['what_fails']} [{k['id']}]")
+            if kid in known_hits and kid not in printed: printed.add(kid); lines.append(f"KNOWN-FINDING: property={pid} {k['what_fails']} [{k['id']}]")
         lean_bad = lean is not None and not lean["ok_for_property"]
         if code == 0:
             if vacuous: lines.append(f"ENGINE-ERROR property={pid} vacuity guard failed: {vacuous[:3]}"); code = 3
